@@ -9,7 +9,8 @@ For one argument list ARGS the monitor obtains, from the real code,
 and compares each with the rule of the statement (vf.ref.c14_argviews.rule: named = split at the first '=',
 name and value trimmed, positive numeric name -> int key; positional = numbered 1.. over positionals only,
 value verbatim).  Where the statement is silent (non-ASCII blanks / digits) either reading is accepted but the
-three views must still coincide.  Every deviating view is delta-minimised separately (drop arguments, then
+three views must still coincide; likewise an argument 'x=v' whose x is empty or contains ] [ & < > " ' may be read
+as named or as positional, but by all three views alike (Monitor.assess).  Every deviating view is delta-minimised separately (drop arguments, then
 reduce every pad / name / value to a canonical representative) and the signature is built from the minimal
 canonical witness: <views>:<what differs>/[argument kinds + the features that could not be removed]/<witness>=><view>.
 """
@@ -27,8 +28,8 @@ RULE = ("argument lists for {{t|ARGS}} / {{#invoke:echo|f|ARGS}}: E1 every admis
         "(quick) / 3 (thorough); E2 every combination of 5 blank classes in every pad slot of one positional / named / "
         "numeric-named argument, alone and before/after a companion of another kind; R seeded random lists of length 1..6 "
         "(blanks, tabs, newlines, rare CR/NBSP/U+3000 around names and values, inner newlines, '=' in values, hostile plain "
-        "names: apostrophe, ampersand, double quote, blank runs, signs, decimals, 0/00, non-ASCII letters and digits, "
-        "numeric names with leading zeros, >1000, 20 digits). Lists violating the precondition (distinct effective names, "
+        "names: apostrophe, ampersand, double quote, a lone < > [ ], no name at all ('=v'), blank runs, signs, decimals, 0/00, "
+        "non-ASCII letters and digits, numeric names with leading zeros, >1000, around 2**53, 20 digits). Lists violating the precondition (distinct effective names, "
         "non-blank values, plain text, no positional ending in a newline) are not generated. distinct = distinct ARGS "
         "string; non-trivial = >=2 argument kinds in the list, or any pad / newline / '=' in value / non-simple name")
 ASSUMPTIONS = [
@@ -37,7 +38,13 @@ ASSUMPTIONS = [
     "'trimmed' and 'numeric name' are not defined by the statement outside ASCII: for NBSP / U+3000 padding and non-ASCII "
     "decimal digits either reading (ASCII-only or Unicode) is accepted, but the three views must coincide",
     "positional values that END in a newline are outside the quantifier (leading / inner newlines only) and are not generated",
-    "names containing no characters at all (\"=v\") are not names and are not generated",
+    "the statement does not say what a name may consist of: for an argument 'x=v' whose x is empty or contains one of "
+    "] [ & < > \" ' both 'named x' and 'positional x=v' are accepted readings, but the three views must give the same map; "
+    "when they do not, the views that differ from the plain reading (split at the first '=') are named as deviating",
+    "a lone [ ] < > is plain text; lists with two characters of one family (which could pair up to a link / tag) are not generated",
+    "not generated: a name made only of non-ASCII blanks (a name in one reading of 'trimmed', none in the other); an 'either way' "
+    "argument that ends in a newline (as a positional it would end in a newline, which is outside the quantifier)",
+    "Lua 5.1 numbers are doubles: for a numeric name above 2**53 the Lua view is accepted when its key is the double nearest to the name",
     "per-call CPU budget 20 s (ITIMER_VIRTUAL) stands for 'returns'",
 ]
 WALL = {"quick": 600, "thorough": 3000}
@@ -46,14 +53,21 @@ VIEWS = ("parser", "expander", "lua")
 ECHO = r'''
 local e = {}
 local function hex(s)
-  s = tostring(s)
   return (s:gsub(".", function(c) return string.format("%02x", string.byte(c)) end))
+end
+local function show(x)
+  -- strings and numbers in full (integers exactly, Lua 5.1 tostring() rounds to 14 digits); of anything else only the type
+  if type(x) == "string" then return "string:" .. hex(x) end
+  if type(x) == "number" then
+    if x == math.floor(x) and x > -1e300 and x < 1e300 then return "number:" .. hex(string.format("%.0f", x)) end
+    return "number:" .. hex(tostring(x))
+  end
+  return type(x) .. ":"
 end
 function e.f(frame)
   local out = {}
   for k, v in pairs(frame.args) do
-    local direct = frame.args[k]
-    out[#out + 1] = type(k) .. ":" .. hex(k) .. "=" .. type(v) .. ":" .. hex(v) .. "=" .. type(direct) .. ":" .. hex(direct)
+    out[#out + 1] = show(k) .. "=" .. show(v) .. "=" .. show(frame.args[k])
   end
   return "[" .. table.concat(out, ";") .. "]"
 end
@@ -99,6 +113,9 @@ def floors(tier):
             "anchors.luaexec.make_frame": n, "counters.template_fn.calls": n, "counters.lua.echo-decoded": n,
             "counters.feature.pos-after-num": 50, "counters.feature.all-three-kinds": 50,
             "counters.feature.pos.vl.nl": 50, "counters.feature.named.vl.nl": 50, "counters.feature.num.lead0": 50,
+            "counters.feature.named.n.empty": 20, "counters.feature.named.n.amp": 20, "counters.feature.named.n.apos": 20,
+            "counters.feature.named.n.dquote": 20, "counters.feature.named.n.lt": 5, "counters.feature.named.n.rbracket": 5,
+            "counters.feature.named.n.ws-run": 20, "counters.feature.num.gt1000": 50, "counters.feature.num.gt2p53": 10,
             "counters.len.6": 50, "nontrivial": n // 2}
 
 
@@ -111,36 +128,33 @@ def exhaustive(tier, total):
 # --------------------------------------------------------------------------------------------- the three views
 
 def decode_echo(s):
-    """'[number:31=string:61=string:61;...]' -> dict (typed keys)."""
+    """'[number:31=string:61=string:61;...]' -> dict (typed keys). Each item: key=value seen by pairs()=value by index."""
     if not (s.startswith("[") and s.endswith("]")):
         raise ValueError("frame")
     d = {}
     if s == "[]":
         return d
-    for it in s[1:-1].split(";"):
-        k, v, w = it.split("=")
-        kt, kh = k.split(":")
-        vt, vh = v.split(":")
-        wt, wh = w.split(":")
-        ks = bytes.fromhex(kh).decode("utf-8", "surrogateescape")
-        vs = bytes.fromhex(vh).decode("utf-8", "surrogateescape")
-        ws = bytes.fromhex(wh).decode("utf-8", "surrogateescape")
-        if kt == "number":
+
+    def one(x):
+        t, h = x.split(":")
+        txt = bytes.fromhex(h).decode("utf-8", "surrogateescape")
+        if t == "string":
+            return txt
+        if t == "number":
             try:
-                key = int(ks)
+                return int(txt)
             except ValueError:
-                key = float(ks)
-        elif kt == "string":
-            key = ks
-        else:
-            key = ("<%s>" % kt, ks)
-        if vt != "string":
-            vs = ("<%s>" % vt, vs)
-        if (wt, ws) != (vt, vs if isinstance(vs, str) else vs[1]):
-            vs = ("<pairs-vs-index>", repr((vs, wt, ws)))
-        if key in d:
+                return float(txt)
+        return ("<%s>" % t,)
+    for it in s[1:-1].split(";"):
+        k, v, w = (one(x) for x in it.split("="))
+        if isinstance(k, tuple):
+            k = "<key of type %s>" % k[0]
+        if w != v or type(w) is not type(v):
+            v = ("<pairs-vs-index>", repr((v, w)))
+        if k in d:
             raise ValueError("duplicate key")
-        d[key] = vs
+        d[k] = v
     return d
 
 
@@ -160,12 +174,22 @@ class Monitor:
                        "luaexec.make_frame": (LX.call_lua_sandbox, "make_frame"),
                        "luaexec.call_lua_sandbox": LX.call_lua_sandbox})
         self.calls = {"parser": 0, "expander": 0, "lua": 0}
+        self.memo = {}
 
     def close(self):
         self.cm.__exit__(None, None, None)
 
     # each view returns ("ok", canon) | ("raises", "ExcType", detail) | ("shape", tag, detail) | ("budget", ...)
     def view(self, which, args, style=0):
+        # one case asks for the same (view, list) several times (one minimisation per deviating view)
+        key = (which, style, tuple(args))
+        if key not in self.memo:
+            if len(self.memo) > 5000:
+                self.memo.clear()
+            self.memo[key] = self._view(which, args, style)
+        return self.memo[key]
+
+    def _view(self, which, args, style=0):
         self.calls[which] += 1
         body = "|".join(args)
         topen, tclose, iopen, iclose, pre, post = STYLES[style]
@@ -205,29 +229,94 @@ class Monitor:
                 except Exception:
                     return ("shape", "lua-error-text" if "error" in out.lower() else "echo-undecodable", out[:300])
                 self.obs.count("lua.echo-decoded")
+                # Lua 5.1 numbers are doubles: a numeric name above 2**53 can only arrive as the nearest double;
+                # it is accepted for the name it is nearest to (see ASSUMPTIONS)
+                big = {}
+                for raw in args:
+                    n = raw.split("=", 1)[0].strip() if "=" in raw else ""
+                    if n.isdigit():
+                        try:
+                            if int(n) > 2 ** 53:
+                                big[int(float(int(n)))] = int(n)
+                        except (ValueError, OverflowError):
+                            pass
+                if big:
+                    d = {(big.get(k, k) if isinstance(k, int) and not (big.get(k, k) in d and big.get(k, k) != k) else k): v
+                         for k, v in d.items()}
                 return ("ok", R.canon(d))
         except CpuBudget as e:
             return ("budget", "no-return-within-cpu-budget", str(e)[-300:])
         except Exception as e:
             return ("raises", type(e).__name__, exc_sig(e) + " " + repr(e)[:160])
 
-    # ------------------------------------------------------------------ judging one view against the rule
-    def judge(self, res, args):
-        """None if the view is acceptable for args, else the kind of deviation (str)."""
+    # ------------------------------------------------------------------ judging the views against the rule
+    @staticmethod
+    def _kind(res, maps):
+        """what differs between one view and a family of accepted maps (None: nothing)."""
         if res[0] != "ok":
             return "%s:%s" % (res[0], res[1]) if res[0] != "budget" else res[1]
-        ra = R.canon(R.rule(args, "A"))
-        if res[1] == ra:
+        kinds = [R.diff_kind(res[1], m) for m in maps]
+        if None in kinds:
             return None
-        ka = R.diff_kind(res[1], ra)
-        ru = R.canon(R.rule(args, "U"))
-        if ru == ra:
-            return ka
-        if res[1] == ru:
-            return None
-        # neither reading: describe the deviation against the closer one
-        ku = R.diff_kind(res[1], ru)
-        return min(ka, ku, key=R.SEVERITY.index)
+        return min(kinds, key=R.SEVERITY.index)
+
+    def assess(self, args, style=0, only=None):
+        """All three views of args against the accepted readings. Returns (results, {view: kind of deviation}, odd).
+
+        Without 'either way' arguments (R.heuristic_args) every view must equal the rule (ASCII or Unicode reading of
+        blanks/digits) -- and the same one: odd lists views that follow another accepted reading than the other two.
+        With such arguments each view is first matched with the reading it is closest to; an 'either way' argument
+        counts as positional only if ALL three views read it so, otherwise the plain reading (split at the first '=')
+        is expected of everybody: a view is never blamed for following the plain reading.
+        only=(view, kind): answer just 'does this view still deviate with this kind', evaluating the other views
+        only when needed."""
+        subs = R.candidate_subsets(args)
+        plain = [R.canon(m) for m in R.family(args)]
+        res = {}
+        if only is not None:
+            v, kind = only
+            res[v] = self.view(v, args, style)
+            k = self._kind(res[v], plain)
+            if k is None:
+                return False
+            if len(subs) == 1 or res[v][0] != "ok":
+                return k == kind
+        for w in VIEWS:
+            if w not in res:
+                res[w] = self.view(w, args, style)
+        common = ()
+        if len(subs) > 1:
+            fams = {sub: [R.canon(m) for m in R.family(args, sub)] for sub in subs}
+            common = None
+            for w in VIEWS:
+                if res[w][0] != "ok":
+                    continue
+                best = min(subs, key=lambda sub: self._distance(res[w][1], fams[sub]) + (len(sub),))
+                common = set(best) if common is None else common & set(best)
+            common = tuple(sorted(common or ()))
+        exp = plain if not common else [R.canon(m) for m in R.family(args, common)]
+        dev = {}
+        for w in VIEWS:
+            k = self._kind(res[w], exp)
+            if k is not None:
+                dev[w] = k
+        odd = []
+        if not dev and not (res["parser"][1] == res["expander"][1] == res["lua"][1]):
+            for w in VIEWS:
+                if sum(res[x][1] == res[w][1] for x in VIEWS) == 1:
+                    odd.append(w)
+        if only is not None:
+            return dev.get(only[0]) == only[1]
+        return res, dev, odd
+
+    @staticmethod
+    def _distance(c, maps):
+        """(severity of the difference, number of differing entries) to the closest map of a family."""
+        out = []
+        for m in maps:
+            k = R.diff_kind(c, m)
+            out.append((0 if k is None else 1 + R.SEVERITY.index(k), len(set(c) ^ set(m))))
+        return min(out)
 
     def ambiguous(self, args):
         return R.rule(args, "A") != R.rule(args, "U")
@@ -256,18 +345,30 @@ def _cands_pad(raw, side):
 INNER_WS = ("ws-run", "nl", "tab", "nl-nl", "nl-marker", "blankline", "uspace")
 NAME_REP = {"apos": "k%d'x", "amp": "k%d&x", "dquote": 'k%d"x', "ws-run": "k%d  x", "nl": "k%d\nx", "tab": "k%d\tx",
             "sp": "k%d x", "nonascii": "é%d", "digit-lead": "%dk", "punct": "k%d.x",
-            "nl-nl": "k%d\n\nx", "nl-marker": "k%d\n*x", "uspace": "k%d\xa0x", "blankline": "k%d\n \nx"}
+            "nl-nl": "k%d\n\nx", "nl-marker": "k%d\n*x", "uspace": "k%d\xa0x", "blankline": "k%d\n \nx",
+            "lbracket": "k%d[x", "rbracket": "k%d]x", "lt": "k%d<x", "gt": "k%d>x"}
 VAL_REP = {"eq": "v%d=w", "apos": "v%d'w", "amp": "v%d&w", "dquote": 'v%d"w', "ws-run": "v%d  w", "nl": "v%d\nw",
            "tab": "v%d\tw", "sp": "v%d w", "nonascii": "é%d", "udigit": "v%d٣", "punct": "v%d.w", "nl-nl": "v%d\n\nw",
-           "nl-marker": "v%d\n*w", "uspace": "v%d\xa0w", "blankline": "v%d\n \nw"}
+           "nl-marker": "v%d\n*w", "uspace": "v%d\xa0w", "blankline": "v%d\n \nw",
+           "lbracket": "v%d[w", "rbracket": "v%d]w", "lt": "v%d<w", "gt": "v%d>w"}
 UDIGIT_NAMES = [("udigit-int", "٣"), ("udigit-int", "１２"), ("udigit-nonint", "²"), ("udigit-nonint", "①")]
+
+
+# characters that one implementation treats alike get ONE representative first (so that e.g. '[' ']' '&', all excluded
+# by the same character class, give one signature); the character's own representative is tried after it
+FAMILY = (({"amp", "lbracket", "rbracket"}, "amp"), ({"dquote", "lt", "gt"}, "dquote"))
 
 
 def _cands_name(raw, i):
     out = [("", "k%d" % i)]
+    if raw == "":
+        out.append(("name-empty", ""))
     cl = R.text_classes(raw, True)
     if any(c in INNER_WS for c in cl):
         out.append(("name-inner-ws", "k%d  x" % i))
+    for members, rep in FAMILY:
+        if members & set(cl):
+            out.append(("name-" + rep, NAME_REP[rep] % i))
     for c in cl:
         rep = NAME_REP.get(c)
         if rep:
@@ -302,6 +403,8 @@ def _cands_num(raw):
             v = 0
         if v > 1000:
             out += [("num-gt1000", "1001"), ("num-gt1000", "1002"), ("num-gt1000", "1003")]
+        if v > 2 ** 53:
+            out += [("num-gt2p53", "9007199254740993"), ("num-gt2p53", "99999999999999999999")]
         if v >= 1000:
             out += [("num-ge1000", "1000")]
         out.append(("num-one", "1"))
@@ -336,7 +439,6 @@ def minimise(args, pred, budget=200):
     args = drop(list(args))
     S = [R.destructure(a) for a in args]
     tags = [dict() for _ in S]
-    canonical = [True]
 
     def rendered():
         return [R.render(s) for s in S]
@@ -353,7 +455,6 @@ def minimise(args, pred, budget=200):
                 return
             S[i][fld] = old
         tags[i][fld] = "raw"
-        canonical[0] = False
 
     def simpler_kind(i):
         """num -> named -> pos when the name does not matter."""
@@ -373,17 +474,29 @@ def minimise(args, pred, budget=200):
                 return
             S[i] = s
 
-    for i in range(len(S)):
-        # a feature that may sit in a pad or inside the text gets ONE canonical place (inside) when that is enough
-        if S[i]["kind"] == "pos" and "blankline" in R.text_classes(R.render(S[i]), False):
+    def whole(i):
+        # a feature that may sit in a pad, in the name or inside the text gets ONE canonical place (inside a
+        # positional value) when that is enough
+        if "blankline" in R.text_classes(R.render(S[i]), False):
             old = S[i]
             S[i] = {"kind": "pos", "vl": "", "v": VAL_REP["blankline"] % (i + 1), "vr": ""}
-            if not ok(rendered()):
+            if old == S[i] or not ok(rendered()):
                 S[i] = old
+            else:
+                tags[i].clear()
+                tags[i]["v"] = "val-blankline"
+                return True
+        return False
+
+    for i in range(len(S)):
+        if whole(i):
+            continue
         attempt(i, "vl", _cands_pad(S[i]["vl"], "lead"))
         attempt(i, "vr", _cands_pad(S[i]["vr"], "trail"))
         attempt(i, "v", _cands_val(S[i]["v"], i + 1))
         simpler_kind(i)
+        if whole(i):
+            continue
         if S[i]["kind"] != "pos":
             attempt(i, "nl", _cands_pad(S[i]["nl"], "lead"))
             attempt(i, "nr", _cands_pad(S[i]["nr"], "trail"))
@@ -403,7 +516,8 @@ def minimise(args, pred, budget=200):
         S = [S[i] for i in keep]
         tags = [tags[i] for i in keep]
         out = out2
-    return out, [_argtag(S[i], tags[i]) for i in range(len(S))], canonical[0]
+    canonical = all(t != "raw" for tg in tags for t in tg.values())
+    return out, [_argtag(S[i], tags[i]) for i in range(len(S))], canonical
 
 
 _FLD = {"vl": "lead", "vr": "trail", "nl": "name-lead", "nr": "name-trail"}
@@ -436,15 +550,14 @@ def signature(mon, view, kind, args, style=0):
     """Minimise the deviation (view, kind) of args, then describe the minimal witness: the signature is a function
     of the witness alone (all three views are evaluated on it). Returns (sig, witness, style, {view: result})."""
     def pred(c):
-        return mon.judge(mon.view(view, c, style), c) == kind
+        return mon.assess(c, style, only=(view, kind))
     m, tags, canonical = minimise(args, pred)
-    if mon.judge(mon.view(view, m, style), m) != kind:   # budget ran out in the middle of a step: fall back to the input
+    if not mon.assess(m, style, only=(view, kind)):   # budget ran out in the middle of a step: fall back to the input
         m, tags, canonical = list(args), ["unminimised"], False
-    if style and mon.judge(mon.view(view, m, 0), m) == kind:
+    if style and mon.assess(m, 0, only=(view, kind)):
         style = 0                                        # the spelling of the call does not matter
-    res = {v: mon.view(v, m, style) for v in VIEWS}
-    dev = {v: mon.judge(res[v], m) for v in VIEWS}
-    dv = [v for v in VIEWS if dev[v] is not None]
+    res, dev, _odd = mon.assess(m, style)
+    dv = [v for v in VIEWS if v in dev]
     if len({dev[v] for v in dv}) == 1:
         head = "+".join(dv) + ":" + dev[dv[0]]
     else:
@@ -470,24 +583,14 @@ def call_text(args, style):
 
 def run_case(mon, obs, args, gen, style=0, record=True):
     """Evaluate one argument list. Returns list of (sig, msg, case)."""
-    res = {v: mon.view(v, args, style) for v in VIEWS}
-    dev = {}
+    mon.memo.clear()
+    res, dev, odd = mon.assess(args, style)
     for v in VIEWS:
         obs.check("rule-vs-" + v)
-        k = mon.judge(res[v], args)
-        if k is not None:
-            dev[v] = k
     obs.check("three-way")
     oks = [res[v][1] for v in VIEWS if res[v][0] == "ok"]
     three = len(oks) == 3 and oks[0] == oks[1] == oks[2]
     amb = mon.ambiguous(args)
-    odd = []
-    if not dev and not three:
-        # every view matches one of the two accepted readings, but not the same one
-        for v in VIEWS:
-            others = [res[w][1] for w in VIEWS if w != v]
-            if others[0] == others[1] != res[v][1]:
-                odd.append(v)
     if record:
         f = R.features(args)
         obs.case("|".join(args) + "#%d" % style, nontrivial=bool(f - {"kind.pos", "kind.named", "kind.num"}),
